@@ -19,22 +19,29 @@ MANIFEST = {
     "text": ("Lean theorems over the executable model of UpnpProfileDevice's subscription life cycle (subscribe loop with "
              "rollback, renewal loop, per-round renewal with event-handler fallback, unsubscribe with task cancellation), "
              "parametrised by the constants and loop shapes extracted from profiles/profile.py on every run: all_or_nothing(+_trace), "
-             "clean_unsubscribe, clean_trace, report_trace (three of the judge's five clause monitors are proved to flag nothing on "
-             "any model history), loop_yields, failure_reported_once, wake_margin / renew_round_start / renew_round_step / deadline_le_expiry "
+             "clean_unsubscribe, clean_trace, report_trace, lapse_trace, yield_trace — all five clause monitors of the judge are "
+             "proved to flag nothing on any model history (judge_accepts_model; Zeno-freedom budget_ok_of_long_timeouts for "
+             "granted timeouts above the tolerance); renew_before_expiry with the decidable latency hypothesis CalmHistory; "
+             "loop_yields, failure_reported_once, wake_margin / renew_round_start / renew_round_step / deadline_le_expiry "
              "(renew_before_expiry_partial). The model is tied to the code "
              "by a differential check of whole timelines (hours of virtual time, scripted publisher reactions and latencies, "
              "unsubscribe injected at every distinct point of a run) and the Lean judge C12.ok is evaluated on the "
              "implementation's trace."),
     "note": ("Trusted: Lean kernel + standard axioms; asyncio scheduling (cancellation delivered at the await, FIFO ready queue) "
              "is modelled, not verified; the event handler is modelled only through its routing-table effects (C09 owns it); "
-             "lapse-freedom is conditional on the per-round latency bound; timer resolution/drift not modelled; "
+             "lapse-freedom is conditional on the judge's decidable calm predicate (per-window latency bound); "
+             "Zeno-freedom needs granted timeouts above the tolerance (excluded point probed on the real code); timer "
+             "resolution/drift not modelled; "
              "correspondence is sampled."),
     "technique": "Lean 4 proof (invariants over an event-driven executable model) + generated constants/shape pins + model/implementation correspondence on a virtual-time loop",
 }
 RULE = ("timelines over a generated DmrDevice/IgdDevice profile (0..4 profile services + foreign services): ops "
         "sub(auto)/wait/unsub with a scripted publisher (reaction ok/new SID/refuse/unreachable/comm error, granted timeout "
         "61..1800 s/infinite/absent, latency 0..300 s per request); unsubscribe injected at every distinct event time of a run "
-        "(thorough) ; non-trivial = at least one renewal round ran; distinct = distinct canonical driver text")
+        "(thorough) ; non-trivial = at least one renewal round ran; distinct = distinct canonical driver text. Tags record the "
+        "distribution: tmo:s<service>:<61-120|121-600|601-1800|inf|abs> (granted timeout per service), round:<reaction> "
+        "(publisher reaction per renewal), lat:<bucket> (reply latency), unsubpoint:<task-not-started|sleeping|"
+        "inflight-renewal|inflight-fallback|task-ended|notask> (where unsubscribe hit the renewal task)")
 EXHAUSTIVE = {"quick": False, "thorough": False}
 ASSUMPTIONS = [
     "caller operations are sequential (subscribe is only called while nothing is subscribed and no renewal task is alive; manual re-subscription of a live profile is not exercised)",
@@ -130,6 +137,17 @@ def tmo_tok(t) -> str:
     return str(t)
 
 
+def tmo_bucket(t) -> str:
+    if t in ("inf", "abs"):
+        return str(t)
+    t = int(t)
+    return "61-120" if t <= 120 else "121-600" if t <= 600 else "601-1800"
+
+
+def lat_bucket(lat: int) -> str:
+    return "0" if lat == 0 else "<1s" if lat < 1000 else "<60s" if lat < 60000 else "1-2min" if lat < 120000 else ">=2min"
+
+
 class Sim:
     """one case: device + profile + publisher + trace"""
 
@@ -158,6 +176,9 @@ class Sim:
             else:
                 self.svc_index[f"/e/{s}"] = 100 + j
         self.stopped = False
+        self.inflight: List[str] = []     # requests currently awaiting their reply (publisher side)
+        self.in_call: Optional[str] = None
+        self.fresh_task = None
 
     # ---- publisher (UpnpRequester fake) ------------------------------------------------------
     async def async_http_request(self, method, url, headers=None, body=None):
@@ -194,7 +215,18 @@ class Sim:
                 hdrs["TIMEOUT"] = f"Second-{int(tmo)}"
         self.lines.append(f"o req {ms(self.loop.time())} {kind} {svc} {sid_in} {reac} {tmo_tok(tmo)} {lat} {granted}")
         self.tags.add(f"req:{kind}:{reac}")
-        await asyncio.sleep(lat / 1000.0)
+        if kind != "U":
+            if reac in ("ok", "new"):
+                self.tags.add(f"tmo:s{svc}:{tmo_bucket(tmo)}")
+            self.tags.add(f"lat:{lat_bucket(lat)}")
+            if kind == "R":
+                self.tags.add(f"round:{reac}")
+        fallback = kind == "S" and self.in_call is None
+        self.inflight.append("fallback" if fallback else kind)
+        try:
+            await asyncio.sleep(lat / 1000.0)
+        finally:
+            self.inflight.pop()
         if reac == "unreach":
             raise UpnpConnectionError("unreachable")
         if reac == "comm":
@@ -338,22 +370,43 @@ class Sim:
                 return  # precondition of the sequential-caller scope (see ASSUMPTIONS)
             self.lines.append(f"sub {1 if auto else 0}")
             self.lines.append(f"o call {now} sub")
-            res, _ = self.call(self.profile.async_subscribe_services(auto_resubscribe=auto))
+            self.in_call = "sub"
+            try:
+                res, _ = self.call(self.profile.async_subscribe_services(auto_resubscribe=auto))
+            finally:
+                self.in_call = None
             self.lines.append(f"o ret {ms(self.loop.time())} sub {res}")
             self.tags.add(f"sub:{'auto' if auto else 'manual'}:{res}")
+            self.fresh_task = self.profile._resubscriber_task if self.task_alive() else None
             self.snap()
         elif name == "unsub":
             self.lines.append("unsub")
             self.lines.append(f"o call {now} unsub")
             t = self.profile._resubscriber_task
-            res, _ = self.call(self.profile.async_unsubscribe_services())
+            if t is None:
+                point = "notask"
+            elif t.done():
+                point = "task-ended"
+            elif self.inflight:
+                point = "inflight-fallback" if "fallback" in self.inflight else "inflight-renewal"
+            elif self.fresh_task is t:
+                point = "task-not-started"
+            else:
+                point = "sleeping"
+            self.in_call = "unsub"
+            try:
+                res, _ = self.call(self.profile.async_unsubscribe_services())
+            finally:
+                self.in_call = None
             self.lines.append(f"o ret {ms(self.loop.time())} unsub {res}")
             self.tags.add("unsub:task" if t is not None else "unsub:notask")
+            self.tags.add(f"unsubpoint:{point}")
             self.snap()
         elif name == "wait":
             d = int(op[1])
             self.lines.append(f"wait {d}")
             before = sum(1 for l in self.lines if l.startswith("o req"))
+            self.fresh_task = None
             self.pump(until=self.loop.time() + d / 1000.0)
             after = sum(1 for l in self.lines if l.startswith("o req"))
             if after > before:
@@ -555,6 +608,39 @@ def generate(ctx: Ctx) -> List[Case]:
         for chunk in pool.map(_worker, jobs):
             cases.extend(chunk)
     return cases
+
+
+REQUIRED_TAGS = ([f"tmo:s{k}:{b}" for k in range(3) for b in ("61-120", "121-600", "601-1800", "inf", "abs")]
+                 + [f"round:{r}" for r in ("ok", "new", "refuse", "unreach", "comm")]
+                 + [f"lat:{b}" for b in ("0", "<1s", "<60s", "1-2min", ">=2min")]
+                 + [f"unsubpoint:{p}" for p in ("task-not-started", "sleeping", "inflight-renewal", "inflight-fallback",
+                                                "task-ended", "notask")])
+
+
+def extra_evidence(ctx: Ctx, cases: List[Case], verdicts) -> Dict[str, Any]:
+    """the generator must have produced every class of the property's quantifier (listed in REQUIRED_TAGS)"""
+    seen = set()
+    for c in cases:
+        seen.update(c.tags)
+    missing = [t for t in REQUIRED_TAGS if t not in seen]
+    return {"quantifier_classes_required": len(REQUIRED_TAGS), "quantifier_classes_missing": missing,
+            "zeno_probe": zeno_probe(ctx)}
+
+
+def zeno_probe(ctx: Ctx) -> Dict[str, Any]:
+    """The excluded point of theorem yield_trace (hypothesis BudgetOk), run against the REAL code and not judged:
+    a publisher that grants a timeout <= RESUBSCRIBE_TOLERANCE and answers without delay makes the renewal loop
+    start round after round without virtual time advancing (it still yields to the event loop at every request:
+    the per-iteration step counter does not trip, the no-time-advance counter does).  Granted 61 s (the
+    property's lower bound) does not."""
+    out = {}
+    for tmo in (60, 61):
+        rec = {"profile": "dmr", "services": ["RC"], "script": [], "default": ["ok", tmo, 0], "ops": [["sub", 1], ["wait", 10000]]}
+        c = run_recipe(ctx, rec, f"zeno{tmo}")
+        out[f"granted_{tmo}s_latency_0"] = {
+            "spin": [t for t in c.tags if t.startswith("spin:")],
+            "renewal_requests": sum(1 for ln in c.lines if ln.startswith("o req") and " R " in ln)}
+    return out
 
 
 def signature(case: Case, verdict) -> str:
